@@ -2458,6 +2458,7 @@ def inline_dropout_training_mode_constants_ir(graph: ir.Graph) -> None:
     changed = False
     del_not_names: Set[str] = set()
     del_not_nodes: Set[ir.Node] = set()
+    false_value: Optional[ir.Value] = None
 
     for idx, n in enumerate(nodes):
         if n.op_type != "Dropout":
@@ -2493,7 +2494,18 @@ def inline_dropout_training_mode_constants_ir(graph: ir.Graph) -> None:
                     continue
                 nv = _read_scalar_bool_from_value_or_constant(nodes, not_in)
                 if nv is not None and bool(nv) is True:
-                    rep_val = _constant_false_value()
+                    if false_value is None:
+                        # One shared constant per graph, registered as an initializer so
+                        # the rewired Dropout input is a defined value after serialization.
+                        false_value = _constant_false_value()
+                        base_name = false_value.name or "false_const"
+                        unique_name, suffix = base_name, 0
+                        while unique_name in graph.initializers:
+                            suffix += 1
+                            unique_name = f"{base_name}_{suffix}"
+                        false_value.name = unique_name
+                        graph.register_initializer(false_value)
+                    rep_val = false_value
                     ins_new = list(ins)
                     ins_new[2] = rep_val
                     old_not_out = _node_output(producer)
